@@ -1,7 +1,750 @@
 package c16
 
-import "verif/engine/ev"
+// L1: the host's plugin components and the plugin library, in-process under
+// the E2 scheduler. Every interleaving (<= 2 preemptions) of the host thread,
+// the goroutines of concurrent.Range and the scripted peers is explored.
 
-// runL1 is the in-process level (filled in by l1_sched.go when built with the
-// scheduler overlay).
-var runL1 = func(w *ev.W) {}
+import (
+	"encoding/binary"
+	"errors"
+	"fmt"
+	"io"
+	"sort"
+	"strings"
+
+	"go.uber.org/thriftrw/plugin"
+	"go.uber.org/thriftrw/plugin/api"
+	"go.uber.org/thriftrw/verifhook"
+	"go.uber.org/thriftrw/verifshim/vio"
+	"go.uber.org/thriftrw/verifshim/vlog"
+	"go.uber.org/thriftrw/verifshim/vsched"
+	"go.uber.org/thriftrw/verifshim/vsync"
+	"verif/engine/choice"
+	"verif/engine/ev"
+	"verif/ref/tbin"
+)
+
+type pipeTransport struct {
+	c          *verifhook.FrameClient
+	toPlugin   *vio.Pipe
+	fromPlugin *vio.Pipe
+}
+
+func (t *pipeTransport) Send(b []byte) ([]byte, error) { return t.c.Send(b) }
+func (t *pipeTransport) Close() error {
+	t.toPlugin.CloseWrite()
+	t.fromPlugin.CloseRead()
+	return nil
+}
+
+func readFrameFrom(r io.Reader) ([]byte, error) {
+	var l [4]byte
+	if _, err := io.ReadFull(r, l[:]); err != nil {
+		return nil, err
+	}
+	b := make([]byte, binary.BigEndian.Uint32(l[:]))
+	_, err := io.ReadFull(r, b)
+	return b, err
+}
+
+func bs(x string) tbin.Value { return tbin.Value{T: tbin.Binary, B: []byte(x)} }
+
+// peer is the in-process scripted plugin: same behaviour as cmd/fakeplugin.
+func peer(name string, sc Script, in, out *vio.Pipe, events *[]string) {
+	logf := func(f string, a ...interface{}) { *events = append(*events, fmt.Sprintf(f, a...)) }
+	die := func() {
+		out.CloseWrite()
+		in.CloseRead()
+		logf("exit 3")
+	}
+	logf("start")
+	if sc.Handshake.Fault == "exit-before-read" {
+		die()
+		return
+	}
+	for {
+		req, err := readFrameFrom(in)
+		if err != nil {
+			if err == io.EOF {
+				logf("eof")
+			} else {
+				logf("read-error %v", err)
+			}
+			out.CloseWrite()
+			logf("exit 0")
+			return
+		}
+		env, _, _, derr := tbin.DecodeEnvelope(req)
+		if derr != nil {
+			logf("bad-request")
+			die()
+			return
+		}
+		method := string(env.Name)
+		logf("req %s", method)
+		var step Step
+		var result tbin.Value
+		switch method {
+		case "Plugin:handshake":
+			step = sc.Handshake
+			hsName, ver := name, sc.APIVersion
+			features := []tbin.Value{{T: tbin.I32, I: 1}}
+			switch step.Fault {
+			case "wrong-name":
+				hsName = name + "-impostor"
+			case "wrong-version":
+				ver++
+			case "no-feature":
+				features = nil
+			}
+			hs := tbin.Value{T: tbin.Struct, Fields: []tbin.Field{{ID: 1, V: bs(hsName)}, {ID: 2, V: tbin.Value{T: tbin.I32, I: int64(ver)}},
+				{ID: 3, V: tbin.Value{T: tbin.List, VT: tbin.I32, Items: features}}, {ID: 4, V: bs("fake")}}}
+			result = tbin.Value{T: tbin.Struct, Fields: []tbin.Field{{ID: 0, V: hs}}}
+		case "ServiceGenerator:generate":
+			step = sc.Generate
+			var items []tbin.Value
+			for p, c := range sc.Files {
+				items = append(items, bs(p), bs(c))
+			}
+			resp := tbin.Value{T: tbin.Struct, Fields: []tbin.Field{{ID: 1, V: tbin.Value{T: tbin.Map, KT: tbin.Binary, VT: tbin.Binary, Items: items}}}}
+			result = tbin.Value{T: tbin.Struct, Fields: []tbin.Field{{ID: 0, V: resp}}}
+		case "Plugin:goodbye":
+			step = sc.Goodbye
+			result = tbin.Value{T: tbin.Struct}
+		default:
+			logf("unknown-method")
+			die()
+			return
+		}
+		if step.Fault == "exit-after-read" {
+			die()
+			return
+		}
+		reply := tbin.Envelope{Name: env.Name, Type: 2, SeqID: env.SeqID}
+		body := tbin.Encode(result)
+		switch step.Fault {
+		case "exception":
+			reply.Type = 3
+			body = tbin.Encode(tbin.Value{T: tbin.Struct, Fields: []tbin.Field{{ID: 1, V: bs("scripted failure")}, {ID: 2, V: tbin.Value{T: tbin.I32, I: 6}}}})
+		case "wrong-envelope-type":
+			reply.Type = 1
+		}
+		payload := tbin.EncodeStrict(reply, body)
+		if step.Fault == "garbage" {
+			payload = []byte{0xde, 0xad, 0xbe, 0xef, 0, 1, 2}
+		}
+		frame := make([]byte, 4, 4+len(payload))
+		binary.BigEndian.PutUint32(frame, uint32(len(payload)))
+		frame = append(frame, payload...)
+		switch step.Fault {
+		case "oversized-length":
+			out.Write([]byte{0x7f, 0xff, 0xff, 0xff, 0})
+			die()
+			return
+		case "truncate":
+			k := step.Offset
+			if k > len(frame) {
+				k = len(frame)
+			}
+			if k > 0 {
+				out.Write(frame[:k])
+			}
+			die()
+			return
+		case "one-byte-writes":
+			for i := range frame {
+				out.Write(frame[i : i+1])
+			}
+		default:
+			out.Write(frame)
+		}
+		if method == "Plugin:handshake" && sc.Generate.Fault == "exit-before-read" {
+			die()
+			return
+		}
+		if method == "ServiceGenerator:generate" && sc.Goodbye.Fault == "exit-before-read" {
+			die()
+			return
+		}
+	}
+}
+
+func minimalRequest() *api.GenerateServiceRequest {
+	return &api.GenerateServiceRequest{
+		RootServices:  []api.ServiceID{},
+		Services:      map[api.ServiceID]*api.Service{},
+		Modules:       map[api.ModuleID]*api.Module{},
+		PackagePrefix: "x",
+		ThriftRoot:    "/m",
+	}
+}
+
+type l1Result struct {
+	hostErr  string
+	failed   bool
+	events   map[string][]string
+	files    []string
+	deadlock bool
+	livelock bool
+	panicMsg string
+	msg      string
+	preempt  bool
+}
+
+func hostScenario(scripts map[string]Script, c *choice.Ctx, allCost bool) l1Result {
+	vsync.ResetPools()
+	res := l1Result{events: map[string][]string{}}
+	names := make([]string, 0, len(scripts))
+	for n := range scripts {
+		names = append(names, n)
+	}
+	sort.Strings(names)
+	main := func() {
+		type spec struct {
+			name string
+			tr   *pipeTransport
+		}
+		var specs []spec
+		var peers vsync.WaitGroup
+		for _, n := range names {
+			n := n
+			to := &vio.Pipe{Name: n + ":host->plugin"}
+			from := &vio.Pipe{Name: n + ":plugin->host"}
+			tr := &pipeTransport{c: verifhook.NewFrameClient(vio.WriteEnd{P: to}, vio.ReadEnd{P: from}), toPlugin: to, fromPlugin: from}
+			specs = append(specs, spec{n, tr})
+			ev := []string{}
+			res.events[n] = ev
+			peers.Add(1)
+			vsched.Go(func() {
+				defer peers.Done()
+				var e []string
+				peer(n, scripts[n], to, from, &e)
+				res.events[n] = e
+			})
+		}
+		// the orchestration of main.do / Flags.Handle with the product's parts
+		var (
+			lock  vsync.Mutex
+			multi verifhook.PluginMultiHandle
+		)
+		err := verifhook.ConcurrentRange(specs, func(_ int, s spec) error {
+			h, err := verifhook.NewTransportHandle(s.name, s.tr)
+			if err != nil {
+				s.tr.Close()
+				return err
+			}
+			lock.Lock()
+			defer lock.Unlock()
+			multi = append(multi, h)
+			return nil
+		})
+		var errsAll []string
+		if err != nil {
+			errsAll = append(errsAll, "initialize: "+err.Error())
+			if cerr := multi.Close(); cerr != nil {
+				errsAll = append(errsAll, "close: "+cerr.Error())
+			}
+		} else {
+			sg := multi.ServiceGenerator()
+			gres, gerr := sg.Generate(minimalRequest())
+			if gerr != nil {
+				errsAll = append(errsAll, "generate: "+gerr.Error())
+			} else if gres != nil {
+				for p := range gres.Files {
+					res.files = append(res.files, p)
+				}
+				sort.Strings(res.files)
+			}
+			if cerr := multi.Close(); cerr != nil {
+				errsAll = append(errsAll, "close: "+cerr.Error())
+			}
+		}
+		res.hostErr = strings.Join(errsAll, " | ")
+		res.failed = len(errsAll) > 0
+		peers.Wait()
+	}
+	s := vsched.Run(main, func(d vsched.Decision) int {
+		if c == nil {
+			return 0
+		}
+		costs := make([]int, len(d.Enabled))
+		if d.RunningEnabled || allCost {
+			for i := 1; i < len(costs); i++ {
+				costs[i] = 1
+			}
+		}
+		ch := c.DeviateCost(costs, "sched:"+d.Label)
+		if ch != 0 {
+			res.preempt = true
+		}
+		return ch
+	}, 30000)
+	res.deadlock, res.livelock, res.msg = s.Deadlock, s.Livelock, s.DeadlockMsg
+	if s.Panic != nil {
+		res.panicMsg = fmt.Sprintf("thread %d: %v", s.PanicThread, s.Panic)
+	}
+	return res
+}
+
+func l1FaultClass(sc Script) string {
+	for _, st := range []struct {
+		n string
+		s Step
+	}{{"handshake", sc.Handshake}, {"generate", sc.Generate}, {"goodbye", sc.Goodbye}} {
+		if st.s.Fault != "ok" {
+			return st.n + "/" + st.s.Fault
+		}
+	}
+	return "ok"
+}
+
+func judgeHost(w *ev.W, desc string, scripts map[string]Script, r l1Result, sched string) {
+	viol := func(class, detail string) {
+		w.Violation("L1:"+class, fmt.Sprintf("L1 %s under schedule [%s]: %s; host error %.300q; events %v", desc, sched, detail, r.hostErr, r.events),
+			map[string]interface{}{"scripts": scripts, "schedule": sched})
+	}
+	switch {
+	case r.panicMsg != "":
+		viol("panic", r.panicMsg+" "+r.msg)
+		return
+	case r.deadlock:
+		viol("deadlock", r.msg)
+		return
+	case r.livelock:
+		viol("livelock", r.msg)
+		return
+	}
+	exp := expect(scripts)
+	anyFailed := false
+	var failedNames []string
+	for n, e := range exp {
+		if e.failed {
+			anyFailed = true
+			failedNames = append(failedNames, n)
+		}
+		var reqs []string
+		sawEOF := false
+		for _, l := range r.events[n] {
+			if strings.HasPrefix(l, "req ") {
+				reqs = append(reqs, strings.TrimPrefix(l, "req "))
+			}
+			if l == "eof" {
+				sawEOF = true
+			}
+		}
+		if strings.Join(reqs, ",") != strings.Join(e.reqs, ",") {
+			viol("history:"+l1FaultClass(scripts[n]), fmt.Sprintf("plugin %s saw requests %v, the protocol automaton allows exactly %v", n, reqs, e.reqs))
+		}
+		if e.mustSeeEOF && !sawEOF {
+			viol("pipe-not-closed:"+l1FaultClass(scripts[n]), fmt.Sprintf("plugin %s never saw EOF", n))
+		}
+	}
+	sort.Strings(failedNames)
+	if anyFailed != r.failed {
+		viol("status", fmt.Sprintf("host failed=%v but failed plugins = %v", r.failed, failedNames))
+	}
+	if anyFailed && r.failed {
+		named := false
+		for _, n := range failedNames {
+			if strings.Contains(r.hostErr, "\""+n+"\"") {
+				named = true
+			}
+		}
+		if !named {
+			viol("failure-does-not-name-plugin", fmt.Sprintf("the host failed without naming any failed plugin %v", failedNames))
+		}
+	}
+	if !anyFailed && !r.failed {
+		var want []string
+		for n, sc := range scripts {
+			if sc.Handshake.Fault != "no-feature" {
+				want = append(want, "fake_"+n+"/out.txt")
+			}
+		}
+		sort.Strings(want)
+		if strings.Join(want, ",") != strings.Join(r.files, ",") {
+			viol("merged-files", fmt.Sprintf("merged files %v, expected %v", r.files, want))
+		}
+	}
+}
+
+// ---- conforming-plugin direction: the real plugin.Main
+
+type captureSG struct{}
+
+func (captureSG) Generate(*api.GenerateServiceRequest) (*api.GenerateServiceResponse, error) {
+	return &api.GenerateServiceResponse{Files: map[string][]byte{"conf/out.txt": []byte("z")}}, nil
+}
+
+var reqKinds = []string{"handshake", "generate", "goodbye", "unknown-service", "unknown-method", "garbage"}
+
+func requestFrame(kind string) []byte {
+	var payload []byte
+	env := func(name string, body tbin.Value) []byte {
+		return tbin.EncodeStrict(tbin.Envelope{Name: []byte(name), Type: 1, SeqID: 7}, tbin.Encode(body))
+	}
+	empty := tbin.Value{T: tbin.Struct}
+	switch kind {
+	case "handshake":
+		payload = env("Plugin:handshake", tbin.Value{T: tbin.Struct, Fields: []tbin.Field{{ID: 1, V: empty}}})
+	case "generate":
+		req := tbin.Value{T: tbin.Struct, Fields: []tbin.Field{
+			{ID: 1, V: tbin.Value{T: tbin.List, VT: tbin.I32}},
+			{ID: 2, V: tbin.Value{T: tbin.Map, KT: tbin.I32, VT: tbin.Struct}},
+			{ID: 3, V: tbin.Value{T: tbin.Map, KT: tbin.I32, VT: tbin.Struct}},
+			{ID: 4, V: bs("x")}, {ID: 5, V: bs("/m")}}}
+		payload = env("ServiceGenerator:generate", tbin.Value{T: tbin.Struct, Fields: []tbin.Field{{ID: 1, V: req}}})
+	case "goodbye":
+		payload = env("Plugin:goodbye", empty)
+	case "unknown-service":
+		payload = env("Nope:handshake", empty)
+	case "unknown-method":
+		payload = env("Plugin:nope", empty)
+	case "garbage":
+		payload = []byte{0xde, 0xad, 0xbe, 0xef, 9}
+	}
+	f := make([]byte, 4, 4+len(payload))
+	binary.BigEndian.PutUint32(f, uint32(len(payload)))
+	return append(f, payload...)
+}
+
+type confResult struct {
+	replies  []string
+	mainEnd  string
+	deadlock bool
+	livelock bool
+	panicMsg string
+	msg      string
+}
+
+func classifyReply(b []byte, err error) string {
+	if err != nil {
+		return "no-reply(" + errClass(err) + ")"
+	}
+	env, _, off, derr := tbin.DecodeEnvelope(b)
+	if derr != nil {
+		return "undecodable-reply"
+	}
+	body, _, berr := tbin.Decode(tbin.Struct, b[off:])
+	if berr != nil {
+		return "undecodable-body"
+	}
+	kind := map[int8]string{2: "reply", 3: "exception"}[env.Type]
+	if kind == "" {
+		kind = fmt.Sprintf("type%d", env.Type)
+	}
+	detail := ""
+	if env.Type == 2 && string(env.Name) == "Plugin:handshake" && len(body.Fields) == 1 {
+		hs := body.Fields[0].V
+		for _, f := range hs.Fields {
+			switch f.ID {
+			case 1:
+				detail += " name=" + string(f.V.B)
+			case 2:
+				detail += fmt.Sprintf(" api=%d", f.V.I)
+			case 3:
+				detail += fmt.Sprintf(" features=%d", len(f.V.Items))
+			}
+		}
+	}
+	if env.Type == 2 && string(env.Name) == "ServiceGenerator:generate" && len(body.Fields) == 1 {
+		for _, f := range body.Fields[0].V.Fields {
+			if f.ID == 1 {
+				detail += fmt.Sprintf(" files=%d", len(f.V.Items)/2)
+			}
+		}
+	}
+	return fmt.Sprintf("%s %s seq=%d%s", kind, env.Name, env.SeqID, detail)
+}
+
+func errClass(err error) string {
+	switch {
+	case errors.Is(err, io.EOF), errors.Is(err, io.ErrUnexpectedEOF):
+		return "eof"
+	case errors.Is(err, io.ErrClosedPipe), errors.Is(err, vio.ErrClosed):
+		return "closed"
+	}
+	return "error"
+}
+
+func confScenario(seq []string, withSG bool, maxRead int, c *choice.Ctx) confResult {
+	vsync.ResetPools()
+	var res confResult
+	main := func() {
+		to := &vio.Pipe{Name: "host->plugin", MaxRead: maxRead}
+		from := &vio.Pipe{Name: "plugin->host", MaxRead: maxRead}
+		p := &plugin.Plugin{Name: "conf", Reader: vio.ReadEnd{P: to}, Writer: vio.WriteEnd{P: from}}
+		if withSG {
+			p.ServiceGenerator = captureSG{}
+		}
+		var wg vsync.WaitGroup
+		wg.Add(1)
+		vsched.Go(func() {
+			defer wg.Done()
+			defer func() {
+				if r := recover(); r != nil {
+					if f, ok := r.(vlog.Fatal); ok {
+						res.mainEnd = "fatal: " + f.Msg
+						// a dying process closes its pipes
+						from.CloseWrite()
+						to.CloseRead()
+						return
+					}
+					panic(r)
+				}
+			}()
+			plugin.Main(p)
+			res.mainEnd = "returned"
+		})
+		for _, k := range seq {
+			_, werr := to.Write(requestFrame(k))
+			if werr != nil {
+				res.replies = append(res.replies, "no-reply(write-"+errClass(werr)+")")
+				continue
+			}
+			b, err := readFrameFrom(from)
+			res.replies = append(res.replies, classifyReply(b, err))
+		}
+		to.CloseWrite()
+		wg.Wait()
+	}
+	s := vsched.Run(main, func(d vsched.Decision) int {
+		if c == nil {
+			return 0
+		}
+		costs := make([]int, len(d.Enabled))
+		if d.RunningEnabled {
+			for i := 1; i < len(costs); i++ {
+				costs[i] = 1
+			}
+		}
+		return c.DeviateCost(costs, "sched:"+d.Label)
+	}, 30000)
+	res.deadlock, res.livelock, res.msg = s.Deadlock, s.Livelock, s.DeadlockMsg
+	if s.Panic != nil {
+		res.panicMsg = fmt.Sprintf("thread %d: %v", s.PanicThread, s.Panic)
+	}
+	return res
+}
+
+// expectConf is the reference behaviour of a conforming plugin.
+func expectConf(seq []string, withSG bool) (replies []string, end string) {
+	alive := true
+	end = "" // unspecified unless a goodbye was served
+	for _, k := range seq {
+		if !alive {
+			replies = append(replies, "no-reply")
+			continue
+		}
+		switch k {
+		case "handshake":
+			f := 0
+			if withSG {
+				f = 1
+			}
+			replies = append(replies, fmt.Sprintf("reply Plugin:handshake seq=7 name=conf api=%d features=%d", api.APIVersion, f))
+		case "generate":
+			if withSG {
+				replies = append(replies, "reply ServiceGenerator:generate seq=7 files=1")
+			} else {
+				replies = append(replies, "exception ServiceGenerator:generate seq=7")
+			}
+		case "goodbye":
+			replies = append(replies, "reply Plugin:goodbye seq=7")
+			alive = false
+			end = "returned"
+		case "unknown-service":
+			replies = append(replies, "exception Nope:handshake seq=7")
+		case "unknown-method":
+			replies = append(replies, "exception Plugin:nope seq=7")
+		case "garbage":
+			replies = append(replies, "no-reply")
+			alive = false
+		}
+	}
+	return
+}
+
+var runL1 func(w *ev.W)
+
+func init() {
+	runL1 = func(w *ev.W) {
+		bound := 2
+		sched := func(c *choice.Ctx) string {
+			var nd []string
+			for i, p := range c.Trace {
+				if p.Choice != 0 {
+					nd = append(nd, fmt.Sprintf("#%d %s=%d/%d", i, p.Label, p.Choice, p.N))
+				}
+			}
+			return strings.Join(nd, "; ")
+		}
+		account := func(ex *choice.Explorer) {
+			w.R.States += ex.Stats.States
+			w.R.Transitions += ex.Stats.Transitions
+			w.R.Traces += ex.Stats.Executions
+			w.Count("L1_executions", ex.Stats.Executions)
+			if ex.Stats.Capped {
+				w.Cap("time budget reached inside an L1 scenario")
+			}
+		}
+		// host direction
+		type hs struct {
+			desc    string
+			scripts map[string]Script
+		}
+		var hss []hs
+		single := [][2]string{}
+		for _, st := range steps {
+			for _, f := range faults {
+				if applicable(st, f) {
+					single = append(single, [2]string{st, f})
+				}
+			}
+		}
+		hss = append(hss, hs{"p1 ok", map[string]Script{"p1": okScript("p1")}})
+		for _, sf := range single {
+			hss = append(hss, hs{fmt.Sprintf("p1 %s/%s", sf[0], sf[1]), map[string]Script{"p1": withFault(okScript("p1"), sf[0], sf[1], 0)}})
+		}
+		for _, st := range steps {
+			for _, off := range []int{0, 2, 5, 30} {
+				hss = append(hss, hs{fmt.Sprintf("p1 %s/truncate@%d", st, off), map[string]Script{"p1": withFault(okScript("p1"), st, "truncate", off)}})
+			}
+		}
+		p2s := []Script{okScript("p2"), withFault(okScript("p2"), "handshake", "wrong-name", 0), withFault(okScript("p2"), "generate", "garbage", 0)}
+		if !w.Quick() {
+			p2s = append(p2s, withFault(okScript("p2"), "handshake", "truncate", 5), withFault(okScript("p2"), "goodbye", "exception", 0), withFault(okScript("p2"), "handshake", "no-feature", 0), withFault(okScript("p2"), "generate", "exit-after-read", 0))
+		}
+		hss = append(hss, hs{"p1 ok p2 ok", map[string]Script{"p1": okScript("p1"), "p2": okScript("p2")}})
+		for _, sf := range single {
+			for i, p2 := range p2s {
+				hss = append(hss, hs{fmt.Sprintf("p1 %s/%s p2 #%d(%s)", sf[0], sf[1], i, l1FaultClass(p2)), map[string]Script{"p1": withFault(okScript("p1"), sf[0], sf[1], 0), "p2": p2}})
+			}
+		}
+		for _, h := range hss {
+			if !w.Own() {
+				continue
+			}
+			if w.Expired() {
+				w.Cap("time budget reached before all L1 host scenarios were explored")
+				break
+			}
+			h := h
+			w.Eval(1)
+			w.Progress("L1 host " + h.desc)
+			nontrivial := false
+			ex := &choice.Explorer{Bound: bound, Stop: w.Expired}
+			// one plugin (3 threads): preemption bounding, switches at blocking points are free.
+			// two plugins (5 threads): free switches explode, so every departure from the
+			// canonical schedule (lowest enabled thread id) costs one deviation.
+			allCost := len(h.scripts) > 1
+			if allCost && !w.Quick() {
+				ex.Bound = 3
+			}
+			n := 0
+			ex.Body = func(c *choice.Ctx) {
+				n++
+				if n&255 == 0 {
+					w.Progress(fmt.Sprintf("L1 host %s (execution %d)", h.desc, n))
+				}
+				r := hostScenario(h.scripts, c, allCost)
+				if r.preempt {
+					nontrivial = true
+				}
+				judgeHost(w, h.desc, h.scripts, r, sched(c))
+				if r.failed {
+					w.Outcome("L1-host-failed")
+				} else {
+					w.Outcome("L1-host-ok")
+				}
+			}
+			ex.Run()
+			account(ex)
+			if nontrivial {
+				w.Nontrivial(1)
+			}
+			if w.WantSample() && w.Idx()%5 == 0 {
+				w.Sample(map[string]interface{}{"level": "L1-host", "scripts": h.desc, "executions": ex.Stats.Executions, "max_choice_points": ex.Stats.MaxDepth})
+			}
+			w.Done()
+		}
+		// conforming-plugin direction
+		maxLen := 3
+		var seqs [][]string
+		var rec func(cur []string)
+		rec = func(cur []string) {
+			if len(cur) > 0 {
+				seqs = append(seqs, append([]string{}, cur...))
+			}
+			if len(cur) == maxLen {
+				return
+			}
+			for _, k := range reqKinds {
+				rec(append(cur, k))
+			}
+		}
+		rec(nil)
+		for _, seq := range seqs {
+			for _, withSG := range []bool{true, false} {
+				for _, maxRead := range []int{0, 1} {
+					if !w.Own() {
+						continue
+					}
+					if w.Expired() {
+						w.Cap("time budget reached before all plugin.Main scenarios were explored")
+						return
+					}
+					seq, withSG, maxRead := seq, withSG, maxRead
+					desc := fmt.Sprintf("plugin.Main seq=%v serviceGenerator=%v maxRead=%d", seq, withSG, maxRead)
+					w.Eval(1)
+					w.Nontrivial(1)
+					w.Progress("L1 " + desc)
+					wantReplies, wantEnd := expectConf(seq, withSG)
+					ex := &choice.Explorer{Bound: 1, Stop: w.Expired}
+					if maxRead == 0 && len(seq) <= 2 {
+						ex.Bound = 2
+					}
+					nexec := 0
+					ex.Body = func(c *choice.Ctx) {
+						nexec++
+						if nexec&255 == 0 {
+							w.Progress(fmt.Sprintf("L1 %s (execution %d)", desc, nexec))
+						}
+						r := confScenario(seq, withSG, maxRead, c)
+						viol := func(class, detail string) {
+							w.Violation("L1-conforming:"+class, fmt.Sprintf("%s under schedule [%s]: %s", desc, sched(c), detail), map[string]interface{}{"seq": seq, "withSG": withSG, "maxRead": maxRead})
+						}
+						switch {
+						case r.panicMsg != "":
+							viol("panic", r.panicMsg+" "+r.msg)
+							return
+						case r.deadlock:
+							viol("deadlock", r.msg)
+							return
+						case r.livelock:
+							viol("livelock", r.msg)
+							return
+						}
+						got := make([]string, len(r.replies))
+						for i, x := range r.replies {
+							if strings.HasPrefix(x, "no-reply") {
+								x = "no-reply"
+							}
+							got[i] = x
+						}
+						if strings.Join(got, " ; ") != strings.Join(wantReplies, " ; ") {
+							viol("replies", fmt.Sprintf("replies %v, a conforming plugin answers %v", r.replies, wantReplies))
+						}
+						if wantEnd != "" && !strings.HasPrefix(r.mainEnd, wantEnd) {
+							viol("termination", fmt.Sprintf("plugin.Main ended with %q, expected %q", r.mainEnd, wantEnd))
+						}
+						w.Outcome("L1-conforming-checked")
+					}
+					ex.Run()
+					account(ex)
+					w.Done()
+				}
+			}
+		}
+	}
+}
